@@ -32,6 +32,7 @@ type InstCase struct {
 	HandleFailAt  int  `json:"handle_fail_at"`
 	Limit         int  `json:"limit"`
 	Corrupt       bool `json:"corrupt"`
+	Faults        bool `json:"faults"`
 }
 
 var instSeq atomic.Int64
@@ -49,9 +50,16 @@ func checkInstance(c InstCase, o *vcore.Obs) error {
 		Sweeper: config.Sweeper{Enabled: true, RetentionDays: 1, Interval: time.Millisecond, FirstInterval: time.Millisecond, LockDuration: time.Millisecond, ReleaseDuration: time.Millisecond},
 		Storage: config.Storage{Cleanup: config.Cleanup{Enabled: true, Interval: time.Millisecond, MustKeepInterval: time.Millisecond, RemoveOldInstancesInterval: time.Nanosecond}},
 	}
+	h := b.Handle("x")
+	if c.Faults {
+		h.SetPlan("list", []string{fault.Fail, fault.OK, fault.Fail})
+		h.SetPlan("load", []string{fault.Fail, fault.NotExist})
+		h.SetPlan("store", []string{fault.Fail, fault.AppliedError})
+		h.SetPlan("delete", []string{fault.Fail})
+	}
 	ev := events.New()
 	dbname := fmt.Sprintf("cdb%d", instSeq.Add(1)%4)
-	s, err := syncer.New(dbname, env.Env, b.Handle("x"), conf, config.LMDB{SchemaTracksChanges: c.Native}, syncer.Options{Events: ev})
+	s, err := syncer.New(dbname, env.Env, h, conf, config.LMDB{SchemaTracksChanges: c.Native}, syncer.Options{Events: ev})
 	if err != nil {
 		return err
 	}
@@ -159,6 +167,7 @@ func checkInstance(c InstCase, o *vcore.Obs) error {
 	o.ClassIf(c.Native, "native")
 	o.ClassIf(!c.Native, "shadow")
 	o.ClassIf(c.Corrupt, "corrupt-peer-blobs")
+	o.ClassIf(c.Faults, "storage-faults")
 	return nil
 }
 
@@ -169,6 +178,6 @@ func TestC17Instance(t *testing.T) {
 			return InstCase{Native: rapid.Bool().Draw(t, "native"), CancelAfterUs: rapid.SampledFrom([]int{0, 200, 2000, 8000, 30000}).Draw(t, "cancel"),
 				Writes: rapid.IntRange(0, 40).Draw(t, "writes"), PeerBlobs: rapid.IntRange(0, 12).Draw(t, "peer"),
 				SubCloseAt: rapid.IntRange(0, 4).Draw(t, "subclose"), HandleFailAt: rapid.IntRange(0, 4).Draw(t, "handlefail"),
-				Limit: rapid.IntRange(1, 3).Draw(t, "limit"), Corrupt: rapid.Bool().Draw(t, "corrupt")}
+				Limit: rapid.IntRange(1, 3).Draw(t, "limit"), Corrupt: rapid.Bool().Draw(t, "corrupt"), Faults: rapid.Bool().Draw(t, "faults")}
 		}, checkInstance)
 }
